@@ -112,11 +112,13 @@ def _mkrng(handler, kind):
     return ScriptedRandomState(handler) if kind == "RandomState" else ScriptedGenerator(handler)
 
 
-def _drive(run, answers, bound=None, first_full=0):
+def _drive(run, answers, bound=None, first_full=0, max_exec=None):
+    """max_exec: safety cap against a (mutated) implementation that asks many more questions than the model predicts;
+    never reached on a conforming implementation (if it is, the run is reported as capped / not exhaustive)."""
     if answers is not None:
         ch = Chooser(answers)
         return [(ch, run(ch))]
-    return explore(run, bound=bound, first_full=first_full)
+    return explore(run, bound=bound, first_full=first_full, max_exec=max_exec)
 
 
 # ============================================================================
@@ -212,7 +214,7 @@ def sus_case(ctx, cs, answers=None):
             complete = False
         if sum(1 for x in p if x > 0) >= 2 and k >= 2:
             ctx.nontriv(digest(("sus", cs["p"], size, case["answers"])))
-        if ctx.evaluations % 3001 == 1 and ok:
+        if ctx.evaluations in (60, 2500) and ok:
             ctx.sample(dict(case, offset_u=f"{h.off[1]}*2^-53", kind=kind, out=out.tolist(),
                             expected=[str(x) for x in e]))
     ctx.state(digest(("sus", cs["p"], size, cs["rng"])))
@@ -354,7 +356,7 @@ def tiled_case(ctx, cs, answers=None):
             out, exc = None, ex
         return out, exc, h
 
-    for ch, (out, exc, h) in _drive(run, answers):
+    for ch, (out, exc, h) in _drive(run, answers, max_exec=200000):
         ctx.evaluations += 1
         ctx.transitions += 1
         case = dict(cs, answers=_trim(ch.taken))
@@ -369,7 +371,7 @@ def tiled_case(ctx, cs, answers=None):
             ctx.flag("tiled:two-whole-tiles")
         if not cs["replace"] and s < o:
             ctx.flag("tiled:no-whole-tile")
-        if ctx.evaluations % 1501 == 1 and ok:
+        if ctx.evaluations in (60, 900) and ok:
             ctx.sample(dict(case, options=a.tolist(), out=out.tolist()))
     ctx.state(digest(("tiled", cs["noption"], size, cs["dup"], cs["p"], cs["replace"], cs["rng"])))
     ctx.count("tiled:cases")
@@ -479,7 +481,7 @@ def axis_case(ctx, cs, answers=None):
             ret, exc = None, ex
         return arr, ret, exc, h
 
-    for ch, (arr, ret, exc, h) in _drive(run, answers, bound=cs["bound"]):
+    for ch, (arr, ret, exc, h) in _drive(run, answers, bound=cs["bound"], max_exec=4 * cs["_cost"] + 200):
         ctx.evaluations += 1
         ctx.transitions += 1
         case = dict(cs, answers=_trim(ch.taken))
@@ -490,7 +492,7 @@ def axis_case(ctx, cs, answers=None):
             ctx.state(digest(("axis", cs["shape"], ax, arr)))
         if any(tuple(pm) != tuple(range(len(pm))) for _, pm in h.log):
             ctx.nontriv(digest(("axis", cs["shape"], ax, case["answers"])))
-        if ctx.evaluations % 2001 == 1 and ok:
+        if ctx.evaluations in (60, 1500) and ok:
             ctx.sample(dict(case, before=orig.tolist(), after=arr.tolist()))
     ctx.count("axis:cases")
     ctx.flag(f"axis:ndim{len(shape)}:naxes{len(axes)}")
@@ -555,7 +557,8 @@ def axis_cases(tier, seed):
             per = math.factorial(rest[0]) if rest else 1
             total = per ** ncalls
             bound = None if (total <= 3000 or T) else 3
-            out.append(dict(part="axis", shape=shape, axis=ax, rng=rk, seed=seed, bound=bound, _cost=min(total, 4000)))
+            out.append(dict(part="axis", shape=shape, axis=ax, rng=rk, seed=seed, bound=bound,
+                            _cost=total if bound is None else min(total, 4000)))
     return out
 
 
@@ -604,7 +607,7 @@ def outx_case(ctx, cs, answers=None):
             ret, exc = None, ex
         return tab, ret, exc, h
 
-    for ch, (tab, ret, exc, h) in _drive(run, answers, bound=cs["bound"], first_full=1):
+    for ch, (tab, ret, exc, h) in _drive(run, answers, bound=cs["bound"], first_full=1, max_exec=300000):
         ctx.evaluations += 1
         ctx.transitions += max(h.ncalls, 1)
         case = dict(cs, answers=_trim(ch.taken))
@@ -619,7 +622,7 @@ def outx_case(ctx, cs, answers=None):
                 ctx.flag("outx:two-improving-passes")
             if R.dup_count(tab.tolist()) > 0:
                 ctx.flag("outx:local-minimum-with-repeats")
-        if ctx.evaluations % 2001 == 1 and ok:
+        if ctx.evaluations in (60, 1500) and ok:
             ctx.sample(dict(case, before=tab0.tolist(), after=tab.tolist(), passes=h.ncalls))
     if R.improving_exchanges(tab0.tolist()):
         ctx.nontriv(digest(("outx", cs["table"])))
@@ -738,7 +741,12 @@ def shards(tier, seed):
         cs = gen(tier, seed)
         for ch in _chunks(cs, plan[part]):
             out.append((part, ch))
-    return out
+    # one shard of every function first, so that the few recorded samples span all four functions
+    firsts, rest, seen = [], [], set()
+    for sp in out:
+        (rest if sp[0] in seen else firsts).append(sp)
+        seen.add(sp[0])
+    return firsts + rest
 
 
 def run_shard(spec, ctx):
